@@ -211,9 +211,9 @@ func (self *DbImpl) Stats() bbolt.Stats {
 }
 
 func (self *DbImpl) RootBucket(tx *bbolt.Tx) (*bbolt.Bucket, error) {
-	self.reloadLock.RLock()
-	defer self.reloadLock.RUnlock()
-
+	// No reloadLock here: the caller's transaction was started by View/Update/Batch, which hold the read lock
+	// for as long as the transaction lives. Taking it again would deadlock with a restore waiting for the
+	// write lock (a waiting writer blocks new readers, and this reader would never release the lock it holds).
 	rootBucket := tx.Bucket([]byte(self.rootBucket))
 	if rootBucket == nil {
 		return nil, fmt.Errorf("db missing root bucket [%v]", self.rootBucket)
@@ -242,9 +242,7 @@ func (self *DbImpl) Snapshot(path string) (string, string, error) {
 }
 
 func (self *DbImpl) SnapshotInTx(tx *bbolt.Tx, path string) (string, string, error) {
-	self.reloadLock.RLock()
-	defer self.reloadLock.RUnlock()
-
+	// No reloadLock here, for the same reason as in RootBucket: the transaction's owner already holds it
 	now := time.Now()
 	dateStr := now.Format("20060102")
 	timeStr := now.Format("150405")
